@@ -344,6 +344,293 @@ pub fn ttl(v: u32) -> Ttl {
     Ttl::from_secs(v)
 }
 
+//------------ real keys of every algorithm the backend signs with (C12) --------
+
+/// One real key pair per algorithm of Rrsig.tla's SignAlgs.  ECDSA / EdDSA
+/// keys are generated; ring cannot generate RSA keys, these are imported from
+/// the BIND format key files in the repository's test-data (2048 bits).
+/// Every secret exists twice: as obtained ("direct") and exported to and
+/// re-imported from the BIND private-key format ("bind").
+pub mod realkeys {
+    use super::*;
+    use domain::crypto::common::rsa_encode;
+    use domain::crypto::sign::{generate, GenerateParams, KeyPair, SecretKeyBytes};
+
+    pub struct RealKey {
+        pub alg: u8,
+        pub direct: SecretKeyBytes,
+        pub bind: SecretKeyBytes,
+        pub public: Dnskey<Vec<u8>>,
+    }
+
+    fn repo_dir() -> String {
+        std::env::var("VERIF_REPO").unwrap_or_else(|_| "/repo".to_string())
+    }
+
+    /// export to the BIND format (format_as_bind through display_as_bind) and parse again
+    pub fn through_bind(s: &SecretKeyBytes) -> Result<SecretKeyBytes, String> {
+        let text = s.display_as_bind().to_string();
+        let mut text2 = String::new();
+        s.format_as_bind(&mut text2).map_err(|e| format!("{e}"))?;
+        if text != text2 {
+            return Err("display_as_bind and format_as_bind differ".into());
+        }
+        let back = SecretKeyBytes::parse_from_bind(&text).map_err(|e| format!("parse_from_bind: {e}"))?;
+        if back.algorithm() != s.algorithm() || back.display_as_bind().to_string() != text {
+            return Err("BIND format round trip changed the key".into());
+        }
+        Ok(back)
+    }
+
+    fn import(alg: u8, tag: u16) -> Result<RealKey, String> {
+        let base = format!("{}/test-data/dnssec-keys/Ktest.+{:03}+{:05}", repo_dir(), alg, tag);
+        let sec_text = std::fs::read_to_string(format!("{base}.private")).map_err(|e| format!("{base}: {e}"))?;
+        let direct = SecretKeyBytes::parse_from_bind(&sec_text).map_err(|e| format!("{base}: {e}"))?;
+        let pub_text = std::fs::read_to_string(format!("{base}.key")).map_err(|e| format!("{base}: {e}"))?;
+        let rec = domain::dnssec::common::parse_from_bind::<Vec<u8>>(&pub_text).map_err(|e| format!("{base}: {e}"))?;
+        let public = rec.data().clone();
+        // the public key is the private key's modulus and exponent in the RFC 3110 layout
+        let (e, n) = match &direct {
+            SecretKeyBytes::RsaSha256(s) | SecretKeyBytes::RsaSha512(s) => (s.e.to_vec(), s.n.to_vec()),
+            _ => return Err(format!("{base}: not an RSA key")),
+        };
+        if rsa_encode(&e, &n) != *public.public_key() {
+            return Err(format!("{base}: rsa_encode of the private key's (e, n) is not the published key"));
+        }
+        let bind = through_bind(&direct)?;
+        Ok(RealKey { alg, direct, bind, public })
+    }
+
+    fn generated(p: GenerateParams) -> Result<RealKey, String> {
+        let alg = p.algorithm().to_int();
+        let (direct, public) = generate(&p, 256).map_err(|e| format!("generate {alg}: {e}"))?;
+        if direct.algorithm().to_int() != alg || public.algorithm().to_int() != alg {
+            return Err(format!("generate {alg}: key of another algorithm"));
+        }
+        let bind = through_bind(&direct)?;
+        Ok(RealKey { alg, direct, bind, public })
+    }
+
+    /// Err(what) is a tool error of the harness (key files missing ...), except
+    /// that an algorithm the backend refuses is simply absent.
+    pub fn all() -> Result<Vec<RealKey>, String> {
+        let mut out = vec![import(8, 60616)?, import(10, 46731)?];
+        for p in [GenerateParams::EcdsaP256Sha256, GenerateParams::EcdsaP384Sha384, GenerateParams::Ed25519,
+                  GenerateParams::Ed448] {
+            if let Ok(k) = generated(p) {
+                out.push(k);
+            }
+        }
+        Ok(out)
+    }
+
+    impl RealKey {
+        /// the public key with the flags of the case
+        pub fn dnskey(&self, flags: u16) -> Dnskey<Vec<u8>> {
+            Dnskey::new(flags, 3, self.public.algorithm(), self.public.public_key().clone()).expect("dnskey")
+        }
+        pub fn pair(&self, route: &str, flags: u16) -> Result<KeyPair, String> {
+            let secret = if route == "bind" { &self.bind } else { &self.direct };
+            KeyPair::from_bytes(secret, &self.dnskey(flags)).map_err(|e| format!("from_bytes: {e}"))
+        }
+    }
+
+    pub fn jkey(k: &Dnskey<Vec<u8>>) -> Value {
+        json!({"flags": k.flags(), "proto": k.protocol(), "alg": k.algorithm().to_int(),
+               "pub": jbytes(k.public_key())})
+    }
+}
+
+//------------ more representation routes (C12) -----------------------------------
+
+/// "typed": the records and the RRSIG travel in a message and are parsed as
+/// the *specific* record data types where the DNSSEC module has one (their
+/// own ParseRecordData), converted with the typed OctetsFrom / FlattenInto /
+/// convert and put back.  Err(what) if anything differs afterwards.
+pub fn convert_typed(recs: &[SRecord], sig: &SRrsig) -> Result<(Vec<SRecord>, SRrsig), String> {
+    use domain::base::name::FlattenInto;
+    use domain::rdata::{Ds, Nsec, Rrsig};
+    use octseq::OctetsFrom;
+    type PN = ParsedName<Bytes>;
+    let mb = MessageBuilder::from_target(TreeCompressor::new(Vec::<u8>::new())).map_err(|_| "builder".to_string())?;
+    let mut ab = mb.answer();
+    for r in recs {
+        ab.push(r.clone()).map_err(|e| format!("{e}"))?;
+    }
+    let first = recs.first().ok_or("empty")?;
+    ab.push(Record::new(first.owner().clone(), first.class(), first.ttl(), sig.clone())).map_err(|e| format!("{e}"))?;
+    let msg = Message::from_octets(Bytes::from(ab.finish().into_target())).map_err(|e| format!("{e}"))?;
+    let mut out: Vec<SRecord> = vec![];
+    let mut osig: Option<SRrsig> = None;
+    for pr in msg.answer().map_err(|e| format!("{e}"))? {
+        let pr = pr.map_err(|e| format!("{e}"))?;
+        let (owner, class, ttl): (SName, Class, Ttl) = (pr.owner().to_name(), pr.class(), pr.ttl());
+        let data: SData = match pr.rtype() {
+            Rtype::DNSKEY => {
+                let r = pr.to_record::<Dnskey<_>>().map_err(|e| format!("{e}"))?.ok_or("not DNSKEY")?;
+                let v: Dnskey<Vec<u8>> = Dnskey::try_octets_from(r.data().clone()).map_err(|_| "dnskey octets_from")?;
+                let (f, p, a) = (v.flags(), v.protocol(), v.algorithm());
+                let b: Dnskey<Bytes> = v.clone().convert();
+                if b.public_key().as_ref() != &v.clone().into_public_key()[..] || b.flags() != f
+                    || b.protocol() != p || b.algorithm() != a {
+                    return Err("Dnskey::convert changed the key".into());
+                }
+                ZoneRecordData::Dnskey(b)
+            }
+            Rtype::DS => {
+                let r = pr.to_record::<Ds<_>>().map_err(|e| format!("{e}"))?.ok_or("not DS")?;
+                let v: Ds<Vec<u8>> = Ds::try_octets_from(r.data().clone()).map_err(|_| "ds octets_from")?;
+                let (t, a, d) = (v.key_tag(), v.algorithm(), v.digest_type());
+                ZoneRecordData::Ds(Ds::new(t, a, d, Bytes::from(v.into_digest())).map_err(|e| format!("{e}"))?)
+            }
+            Rtype::NSEC => {
+                let r = pr.to_record::<Nsec<_, PN>>().map_err(|e| format!("{e}"))?.ok_or("not NSEC")?;
+                let f: Nsec<Bytes, SName> = r.data().clone().try_flatten_into().map_err(|_| "nsec flatten")?;
+                let v: Nsec<Vec<u8>, VName> = Nsec::try_octets_from(f).map_err(|_| "nsec octets_from")?;
+                let b: Nsec<Bytes, SName> = Nsec::try_octets_from(v).map_err(|_| "nsec octets_from")?;
+                ZoneRecordData::Nsec(b)
+            }
+            Rtype::RRSIG => {
+                let r = pr.to_record::<Rrsig<_, PN>>().map_err(|e| format!("{e}"))?.ok_or("not RRSIG")?;
+                let f: SRrsig = r.data().clone().try_flatten_into().map_err(|_| "rrsig flatten")?;
+                // as record data of a record: Record / ZoneRecordData conversion
+                let rec: SRecord = Record::new(owner.clone(), class, ttl, ZoneRecordData::Rrsig(f.clone()));
+                let v: Record<VName, ZoneRecordData<Vec<u8>, VName>> =
+                    Record::try_octets_from(rec).map_err(|_| "record octets_from")?;
+                let b: SRecord = Record::try_octets_from(v).map_err(|_| "record octets_from")?;
+                let ZoneRecordData::Rrsig(mut g) = b.data().clone() else {
+                    return Err("RRSIG record became another type".into());
+                };
+                if g != f {
+                    return Err("RRSIG changed as record data".into());
+                }
+                // the signature set again from its own octets
+                let s = Bytes::copy_from_slice(g.signature().as_ref());
+                g.set_signature(s);
+                osig = Some(g);
+                continue;
+            }
+            _ => {
+                let r = pr.into_record::<ZoneRecordData<Bytes, PN>>().map_err(|e| format!("{e}"))?.ok_or("not parsed")?;
+                let r: SRecord = r.flatten_into();
+                r.data().clone()
+            }
+        };
+        out.push(Record::new(owner, class, ttl, data));
+    }
+    let osig = osig.ok_or("RRSIG lost in the message")?;
+    if out.len() != recs.len() || out.iter().zip(recs.iter()).any(|(a, b)| a != b || a.ttl() != b.ttl()) {
+        return Err("records changed".into());
+    }
+    if &osig != sig || osig.signature().as_ref() != sig.signature().as_ref() {
+        return Err(format!("rrsig changed: {} -> {}", sig, osig));
+    }
+    Ok((out, osig))
+}
+
+/// The verifying key on the "typed" route: as a DNSKEY record of a message,
+/// parsed as Dnskey, converted and taken apart.
+pub fn convert_dnskey_typed(owner: &SName, k: &Dnskey<Vec<u8>>) -> Result<Dnskey<Vec<u8>>, String> {
+    use octseq::OctetsFrom;
+    let mb = MessageBuilder::from_target(TreeCompressor::new(Vec::<u8>::new())).map_err(|_| "builder".to_string())?;
+    let mut ab = mb.answer();
+    ab.push(Record::new(owner.clone(), Class::IN, Ttl::from_secs(60), k.clone())).map_err(|e| format!("{e}"))?;
+    let msg = Message::from_octets(Bytes::from(ab.finish().into_target())).map_err(|e| format!("{e}"))?;
+    let pr = msg.answer().map_err(|e| format!("{e}"))?.next().ok_or("no record")?.map_err(|e| format!("{e}"))?;
+    let r = pr.to_record::<Dnskey<_>>().map_err(|e| format!("{e}"))?.ok_or("not DNSKEY")?;
+    let b: Dnskey<Bytes> = Dnskey::try_octets_from(r.data().clone()).map_err(|_| "dnskey octets_from")?;
+    let (f, p, a) = (b.flags(), b.protocol(), b.algorithm());
+    let v: Dnskey<Vec<u8>> = Dnskey::new(f, p, a, b.into_public_key().to_vec()).map_err(|e| format!("{e}"))?;
+    if &v != k || v.key_tag() != k.key_tag() {
+        return Err("dnskey changed".into());
+    }
+    Ok(v)
+}
+
+/// The RRSIG RDATA without the signature as the signer builds it
+/// (ProtoRrsig), after the conversions of the route; canonical form.
+pub fn proto_prefix(conv: &str, sig: &SRrsig) -> Result<Vec<u8>, String> {
+    use domain::base::name::FlattenInto;
+    use domain::rdata::dnssec::ProtoRrsig;
+    use octseq::OctetsFrom;
+    let p: ProtoRrsig<SName> = ProtoRrsig::new(sig.type_covered(), sig.algorithm(), sig.labels(), sig.original_ttl(),
+                                               sig.expiration(), sig.inception(), sig.key_tag(),
+                                               sig.signer_name().clone());
+    let p: ProtoRrsig<SName> = match conv {
+        "octets" | "typed" => {
+            let v: ProtoRrsig<VName> = ProtoRrsig::try_octets_from(p).map_err(|_| "proto octets_from")?;
+            ProtoRrsig::try_octets_from(v).map_err(|_| "proto octets_from")?
+        }
+        "flatten" => {
+            // the signer name as a parsed (possibly compressed) name of a message
+            let mb = MessageBuilder::from_target(TreeCompressor::new(Vec::<u8>::new())).map_err(|_| "builder".to_string())?;
+            let mut ab = mb.answer();
+            ab.push(Record::new(sig.signer_name().clone(), Class::IN, Ttl::from_secs(0),
+                                domain::rdata::Ns::new(sig.signer_name().clone())))
+                .map_err(|e| format!("{e}"))?;
+            let msg = Message::from_octets(Bytes::from(ab.finish().into_target())).map_err(|e| format!("{e}"))?;
+            let pr = msg.answer().map_err(|e| format!("{e}"))?.next().ok_or("no record")?.map_err(|e| format!("{e}"))?;
+            let r = pr.to_record::<domain::rdata::Ns<ParsedName<Bytes>>>().map_err(|e| format!("{e}"))?.ok_or("not NS")?;
+            let pp: ProtoRrsig<ParsedName<Bytes>> =
+                ProtoRrsig::new(sig.type_covered(), sig.algorithm(), sig.labels(), sig.original_ttl(),
+                                sig.expiration(), sig.inception(), sig.key_tag(), r.data().nsdname().clone());
+            pp.try_flatten_into().map_err(|_| "proto flatten")?
+        }
+        _ => p,
+    };
+    let mut buf: Vec<u8> = vec![];
+    p.compose_canonical(&mut buf).map_err(|_| "compose")?;
+    // with the signature attached it is the RRSIG again
+    let again: SRrsig = p.into_rrsig(sig.signature().clone()).map_err(|e| format!("{e}"))?;
+    if &again != sig {
+        return Err("ProtoRrsig::into_rrsig is not the RRSIG".into());
+    }
+    Ok(buf)
+}
+
+/// "chain": the owner names as a relative name chained to an origin
+/// (ToRelativeName::chain, split in the middle) and as a relative name
+/// chained to the root (chain_root, relative part in canonical form): what
+/// RrsigExt::signed_data rebuilds from either.
+pub fn signed_data_chained(sig: &SRrsig, recs: &[SRecord]) -> Result<Vec<u8>, String> {
+    use domain::base::name::{RelativeName, ToLabelIter, ToRelativeName};
+    use domain::dnssec::validator::base::RrsigExt;
+    let mut mid = vec![];
+    let mut rooted = vec![];
+    for r in recs {
+        let labels: Vec<Vec<u8>> = r.owner().iter_labels().filter(|l| !l.is_root()).map(|l| l.as_slice().to_vec()).collect();
+        let k = labels.len() / 2;
+        let wire = |ls: &[Vec<u8>]| -> Vec<u8> {
+            let mut w = vec![];
+            for l in ls {
+                w.push(l.len() as u8);
+                w.extend_from_slice(l);
+            }
+            w
+        };
+        let left = RelativeName::from_octets(Bytes::from(wire(&labels[..k]))).map_err(|e| format!("{e}"))?;
+        let mut rw = wire(&labels[k..]);
+        rw.push(0);
+        let right: SName = Name::from_octets(Bytes::from(rw)).map_err(|e| format!("{e}"))?;
+        if left.is_empty() != (k == 0) {
+            return Err("ToRelativeName::is_empty".into());
+        }
+        let c = left.to_bytes().chain(right).map_err(|e| format!("chain: {e}"))?;
+        mid.push(Record::new(c, r.class(), r.ttl(), r.data().clone()));
+        let whole = RelativeName::from_octets(Bytes::from(wire(&labels))).map_err(|e| format!("{e}"))?;
+        let canon: RelativeName<Vec<u8>> = whole.to_canonical_relative_name();
+        rooted.push(Record::new(canon.chain_root(), r.class(), r.ttl(), r.data().clone()));
+    }
+    let mut a: Vec<u8> = vec![];
+    sig.signed_data(&mut a, &mut mid[..]).map_err(|_| "signed_data")?;
+    let mut b: Vec<u8> = vec![];
+    sig.signed_data(&mut b, &mut rooted[..]).map_err(|_| "signed_data")?;
+    if a != b {
+        return Err(format!("chain {:?} and chain_root {:?} give different signed data", a, b));
+    }
+    Ok(a)
+}
+
 //------------ denial (C13) ----------------------------------------------------
 
 pub mod denial {
